@@ -17,7 +17,8 @@ CONSTANTS P, Q, Gg,     \* the group
           K,            \* players
           W,            \* type bits
           L,            \* mask chain length
-          Mode          \* "card" | "keys" | "sigma" | "stack"
+          Mode,         \* "card" | "keys" | "sigma" | "stack"
+          HXS           \* exponents of the second base in the Chaum-Pedersen theorems
 G == [p |-> P, q |-> Q, g |-> Gg]
 NT == 2 ^ W
 Zq == 0..(Q - 1)
@@ -75,28 +76,36 @@ C08_Common == Mode = "keys" => \A a, b \in Players :
                  (AccSet(a) \cup {a} = Players /\ AccSet(b) \cup {b} = Players) => (view[a].h = view[b].h /\ view[a].h = H)
 
 \* ---------------- sigma mode (C03 / C04): all in the initial states, no steps
-InitSigma == /\ Mode = "sigma" /\ xs \in [Players -> Zq] /\ typ = 0 /\ card = <<1, 1>> /\ n = 0 /\ view = <<>>
+\* one seed state; the key vectors are successor states, so that TLC's workers evaluate the theorems in parallel
+InitSigma == /\ Mode = "sigma" /\ xs = [j \in Players |-> 0] /\ typ = 0 /\ card = <<1, 1>> /\ n = 0 /\ view = <<>>
+FanOut == /\ Mode \in {"sigma", "stack"} /\ n < K + 1
+          /\ IF n < K
+             THEN /\ \E v \in (IF Mode = "sigma" THEN Zq ELSE {1, 3}) : xs' = [xs EXCEPT ![n + 1] = v]
+                  /\ typ' = typ
+             ELSE /\ typ' \in (IF Mode = "stack" THEN 0..(NT - 1) ELSE {0}) /\ xs' = xs
+          /\ n' = n + 1 /\ UNCHANGED <<card, view>>
+Ready == n = K + 1
 \* Schnorr: for every witness x, coin v, challenge c (as residue mod q): g^r * y^c = g^v
-C03_Schnorr == Mode = "sigma" => \A v \in Zq, c \in Zq :
+C03_Schnorr == (Mode = "sigma" /\ Ready) => \A v \in Zq, c \in Zq :
                  LET x == xs[1]  y == PubKey(G, x)  r == SchnorrResp(G, v, c, x)
                  IN SchnorrT(G, y, c, r) = Exp(G, Gg, v)
 \* Chaum-Pedersen for (x, y) = (gg^a, hh^a): both verifier equations hold
-C03_CP == Mode = "sigma" => \A v \in Zq, c \in Zq, hx \in 1..(Q - 1) :
+C03_CP == (Mode = "sigma" /\ Ready) => \A v \in Zq, c \in Zq, hx \in HXS :
                  LET a == xs[1]  hh == Exp(G, Gg, hx)
                      x == Exp(G, Gg, a)  y == Exp(G, hh, a)  r == SchnorrResp(G, v, c, a)
                  IN CPa(G, Gg, x, c, r) = Exp(G, Gg, v) /\ CPa(G, hh, y, c, r) = Exp(G, hh, v)
 \* a negative response r - q is the same residue and verifies as well (the equivalent representation of C05)
-C05_NegEquiv == Mode = "sigma" => \A v \in Zq, c \in Zq :
+C05_NegEquiv == (Mode = "sigma" /\ Ready) => \A v \in Zq, c \in Zq :
                  LET x == xs[1]  y == PubKey(G, x)  r == SchnorrResp(G, v, c, x)
                  IN SchnorrT(G, y, c, r - Q) = Exp(G, Gg, v)
 \* any other residue for r fails, any other residue for c fails (with r fixed)
-C05_Binding == Mode = "sigma" => \A v \in Zq, c \in Zq :
+C05_Binding == (Mode = "sigma" /\ Ready) => \A v \in Zq, c \in Zq :
                  LET x == xs[1]  y == PubKey(G, x)  r == SchnorrResp(G, v, c, x) IN
                  /\ \A r2 \in Zq : r2 # r => SchnorrT(G, y, c, r2) # Exp(G, Gg, v)
                  /\ (y # 1) => \A c2 \in Zq : c2 # c => SchnorrT(G, y, c2, r) # Exp(G, Gg, v)
 \* special soundness, counted: statement (x, y) = (g^a, hh^b) with a # b; for fixed commitments (A, B) the number of
 \* challenge residues c for which SOME response r satisfies both equations is at most 1
-C04_CP == (Mode = "sigma" /\ K >= 2) => \A hx \in 1..(Q - 1), va \in Zq, vb \in Zq :
+C04_CP == (Mode = "sigma" /\ Ready /\ K >= 2) => \A hx \in HXS, va \in Zq, vb \in Zq :
                  LET a == xs[1]  b == xs[2]  hh == Exp(G, Gg, hx)
                      x == Exp(G, Gg, a)  y == Exp(G, hh, b)
                      A == Exp(G, Gg, va)  B == Exp(G, hh, vb)
@@ -105,7 +114,7 @@ C04_CP == (Mode = "sigma" /\ K >= 2) => \A hx \in 1..(Q - 1), va \in Zq, vb \in 
 
 \* ---------------- stack mode (C02): n cards of arbitrary types under a key, all permutations and coins (sampled coins)
 Perms(m) == {f \in [0..(m - 1) -> 0..(m - 1)] : \A a, b \in 0..(m - 1) : a # b => f[a] # f[b]}
-InitStack == /\ Mode = "stack" /\ xs \in [Players -> {1, 3}] /\ typ \in 0..(NT - 1) /\ card = <<1, 1>> /\ n = 0 /\ view = <<>>
+InitStack == /\ Mode = "stack" /\ xs = [j \in Players |-> 1] /\ typ = 0 /\ card = <<1, 1>> /\ n = 0 /\ view = <<>>
 StackN == L
 Types(t) == [k \in 1..StackN |-> (t + k) % NT]          \* a stack with (possibly repeated) types
 Stk(t) == [k \in 1..StackN |-> MaskNew(G, H, Types(t)[k], 2 + ((k + t) % (Q - 2)))]
@@ -116,16 +125,16 @@ Glue(sigma, pi) ==
   IN [k \in 1..m |-> [pi |-> sigma[pi[k].pi + 1].pi, r |-> (sigma[k].r + pi[inv(k - 1)].r) % Q]]
 TT(c) == TrueType(G, c, SumX(Players), NT)
 RSet == {[k \in 1..StackN |-> 2 + ((k * a + b) % (Q - 2))] : a \in 1..2, b \in 0..2}
-C02_Mix == Mode = "stack" => \A pi \in Perms(StackN), rs \in RSet :
+C02_Mix == (Mode = "stack" /\ Ready) => \A pi \in Perms(StackN), rs \in RSet :
               LET s == Stk(typ)  o == Mix(s, MkSS(pi, rs)) IN
               /\ Len(o) = Len(s)
               /\ \A k \in 1..StackN : TT(o[k]) = TT(s[pi[k - 1] + 1])
               /\ \A t \in 0..(NT - 1) : Cardinality({k \in 1..StackN : TT(o[k]) = t}) = Cardinality({k \in 1..StackN : TT(s[k]) = t})
-C02_Glue == Mode = "stack" => \A p1 \in Perms(StackN), p2 \in Perms(StackN), r1 \in RSet, r2 \in RSet :
+C02_Glue == (Mode = "stack" /\ Ready) => \A p1 \in Perms(StackN), p2 \in Perms(StackN), r1 \in RSet, r2 \in RSet :
               LET s == Stk(typ)  a == MkSS(p1, r1)  b == MkSS(p2, r2) IN
               Mix(Mix(s, a), b) = Mix(s, Glue(a, b))
 
 Init == InitCard \/ InitKeys \/ InitSigma \/ InitStack
-Next == MaskStep \/ (\E i, j \in Players, kind \in Kinds : Update(i, j, kind)) \/ (\E i, j \in Players : Remove(i, j))
+Next == MaskStep \/ FanOut \/ (\E i, j \in Players, kind \in Kinds : Update(i, j, kind)) \/ (\E i, j \in Players : Remove(i, j))
 Spec == Init /\ [][Next]_vars
 =============================================================================
